@@ -108,6 +108,10 @@ def sRefresh : Refresh → String
   | .status c => s!"status {c}"
   | .crashed => "crashed"
 
+/-- status `certGenHandler` answers with the same credential (it authenticates, it does not extract) -/
+def sCertgen : Auth → String
+  | .user _ => "200" | .forbidden => "403" | .serverError => "500" | .crashed => "PANIC"
+
 def readers (e : Ext) (p : Peer) : String :=
   s!"restricted={boolStr e.restricted} verify={sResBool (verify e p)} extract={sResBlocks (extract e)}"
 
@@ -140,13 +144,14 @@ def model : List String → String
     | _, _ => "bad-op"
   | ["ref", cn, e, p, env] =>
     match unhex cn, pExt e, pPeer p, pEnv env with
-    | some cn, some (e, _), some p, some env => sRefresh (refresh cn.toList e p env)
+    | some cn, some (e, _), some p, some env =>
+      s!"{sRefresh (refresh cn.toList e p env)} certgen={sCertgen (ipAuth cn.toList e p env)}"
     | _, _, _, _ => "bad-op"
   | ["refm", cn, ns, p, env] =>
     match unhex cn, pList pNet "," ns, pPeer p, pEnv env with
     | some cn, some ns, some p, some env =>
       match mintExt ns with
-      | some e => sRefresh (refresh cn.toList e p env)
+      | some e => s!"{sRefresh (refresh cn.toList e p env)} certgen={sCertgen (ipAuth cn.toList e p env)}"
       | none => "minterr"
     | _, _, _, _ => "bad-op"
   | _ => "bad-op"
